@@ -1,89 +1,170 @@
 /-
-  C01 — helper lemmas: `trimValue` removes the shortest / longest matching prefix / suffix.
+  C01 — helper lemmas: prefix / suffix removal.  The model's `trimApply` is the C04 model of yash-fnmatch
+  (`Fnmatch.trimApply`); C04's results turn it into the Spec's `posixTrim`.  They are used in their lemma-file
+  form (`Fnmatch.Proofs.*`, `parseAtoms_eq_spec`: the proofs behind C04's audited property theorems
+  `trimApply_correct`, `trimApply_suffix_correct`, `defined_compiles`, `parser_is_grammar`, `specTrim_declarative`), so
+  that this file does not depend on C04's `Theorems.lean` and the files only that one imports.
 -/
 import YashModel.Expansion.Model
 import YashModel.Expansion.Spec
+import YashModel.Fnmatch.ParseSpec
+import YashModel.Fnmatch.DefinedLemmas
 namespace YashModel.Expansion
 
-theorem find_range (p : Nat → Bool) : ∀ n,
-    match (List.range n).find? p with
-    | some k => p k = true ∧ k < n ∧ ∀ j, j < k → p j = false
-    | none => ∀ j, j < n → p j = false := by
+/-- C04 `parser_is_grammar`, second half -/
+theorem parseAtoms_is_grammar (pcs : List PatChar) : Fnmatch.parseAtoms pcs = Fnmatch.specParse pcs :=
+  Fnmatch.parseAtoms_eq_spec pcs.length pcs (Nat.le_refl _)
+
+/-- C04 `trimApply_correct` -/
+theorem fnmatch_trimApply_correct (pcs : List PatChar) (hd : Fnmatch.astDefined (Fnmatch.parseAtoms pcs) = true)
+    (hn : Fnmatch.noMulti (Fnmatch.parseAtoms pcs) = true) (side : TrimSide) (len : TrimLen) (v : List Char) :
+    Fnmatch.trimApply side len pcs v = Fnmatch.specTrim side len (Fnmatch.parseAtoms pcs) v := by
+  obtain ⟨p, hp⟩ := Fnmatch.Proofs.defined_compiles (Fnmatch.parseAtoms pcs) hd (Fnmatch.trimConfig side len)
+  unfold Fnmatch.trimApply Fnmatch.Pattern.parse
+  rw [hp]
+  exact Fnmatch.Proofs.trim_correct (Fnmatch.parseAtoms pcs) hn side len p hp v
+
+/-- C04 `specTrim_declarative` -/
+theorem fnmatch_specTrim_declarative (p : Nat → Bool) (n : Nat) :
+    ((Fnmatch.leastUpTo p n = none ∧ ∀ j, j ≤ n → p j = false) ∨
+     (∃ k, Fnmatch.leastUpTo p n = some k ∧ k ≤ n ∧ p k = true ∧ ∀ j, j < k → p j = false)) ∧
+    ((Fnmatch.greatestUpTo p n = none ∧ ∀ j, j ≤ n → p j = false) ∨
+     (∃ k, Fnmatch.greatestUpTo p n = some k ∧ k ≤ n ∧ p k = true ∧ ∀ j, k < j → j ≤ n → p j = false)) :=
+  ⟨Fnmatch.Proofs.leastUpTo_spec, Fnmatch.Proofs.greatestUpTo_spec⟩
+
+/-- on one string: what `trim::apply` computes is what the Spec says, for every pattern -/
+theorem trimString_eq_posix (pcs : List PatChar) (side : TrimSide) (len : TrimLen) (v : List Char) :
+    Fnmatch.trimApply side len pcs v = posixTrimString pcs side len v := by
+  unfold posixTrimString
+  by_cases h : patternInPosix side pcs = true
+  · rw [if_pos h]
+    unfold patternInPosix at h
+    have hg : Fnmatch.parseAtoms pcs = Fnmatch.specParse pcs := parseAtoms_is_grammar pcs
+    rw [← hg] at h ⊢
+    rw [Bool.and_eq_true] at h
+    obtain ⟨hd, hs⟩ := h
+    cases side with
+    | suffix => exact Fnmatch.Proofs.trimApply_suffix_correct pcs hd len v
+    | «prefix» =>
+      have hn : Fnmatch.noMulti (Fnmatch.parseAtoms pcs) = true := by simpa using hs
+      exact fnmatch_trimApply_correct pcs hd hn .prefix len v
+  · rw [if_neg h]
+
+/-- scalar and array values -/
+theorem trimApply_eq_posixTrim (pcs : List PatChar) (side : TrimSide) (len : TrimLen) (val : Value) :
+    trimApply pcs side len val = posixTrim pcs side len val := by
+  cases val with
+  | scalar s => simp [trimApply, posixTrim, trimString_eq_posix]
+  | array vs =>
+    simp only [trimApply, posixTrim, Fnmatch.trimArray]
+    congr 1
+    exact List.map_congr_left (fun v _ => trimString_eq_posix pcs side len v)
+
+/-! ## `apply_escapes` / `to_pattern_chars`: this area's transcription = C04's -/
+
+/-- what `attr_fnmatch.rs` reads of an attributed character -/
+def projAttr (c : AttrChar) : Fnmatch.AttrChar := ⟨c.value, c.isQuoted, c.isQuoting⟩
+
+theorem applyEscapesGo_proj : ∀ (cs : List AttrChar) (q : Bool),
+    (applyEscapesGo q cs).map projAttr = Fnmatch.applyEscapesAux q (cs.map projAttr)
+  | [], q => by simp [applyEscapesGo, Fnmatch.applyEscapesAux]
+  | [c], q => by
+    cases q <;> simp [applyEscapesGo, Fnmatch.applyEscapesAux, projAttr]
+  | c :: d :: t, q => by
+    have ih1 := applyEscapesGo_proj (d :: t) true
+    have ih2 := applyEscapesGo_proj (d :: t) false
+    rw [applyEscapesGo]
+    simp only [List.map_cons] at ih1 ih2 ⊢
+    rw [Fnmatch.applyEscapesAux]
+    generalize hc' : (if q = true then { c with isQuoted := true } else c) = c'
+    have hp : (if q = true then { projAttr c with isQuoted := true } else projAttr c) = projAttr c' := by
+      subst hc'; cases q <;> rfl
+    simp only [hp]
+    have hne : (projAttr d :: List.map projAttr t ≠ []) = True := by simp
+    by_cases h : c'.value = '\\' ∧ c'.isQuoting = false ∧ c'.isQuoted = false
+    · obtain ⟨h1, h2, h3⟩ := h
+      have e1 : (projAttr c').value = '\\' := h1
+      have e2 : (projAttr c').isQuoting = false := h2
+      have e3 : (projAttr c').isQuoted = false := h3
+      simp only [h1, h2, h3, e1, e2, e3, hne, and_self, if_true, beq_self_eq_true, Bool.not_false, Bool.and_self,
+        List.map_cons, ih1]
+      rfl
+    · have h' : ¬ ((c'.value == '\\' && !c'.isQuoting && !c'.isQuoted) = true) := by
+        intro hh; apply h
+        simp only [Bool.and_eq_true, beq_iff_eq, Bool.not_eq_true'] at hh
+        exact ⟨hh.1.1, hh.1.2, hh.2⟩
+      have h'' : ¬ ((projAttr c').value = '\\' ∧ (projAttr c').isQuoting = false ∧ (projAttr c').isQuoted = false ∧ True) := by
+        intro hh; exact h ⟨hh.1, hh.2.1, hh.2.2.1⟩
+      simp only [h', hne, h'', if_false, List.map_cons, ih2, Bool.false_eq_true]
+
+theorem toPatternChars_proj : ∀ (cs : List AttrChar),
+    toPatternChars cs = Fnmatch.toPatternChars (cs.map projAttr)
+  | [] => rfl
+  | c :: t => by
+    have ih := toPatternChars_proj t
+    unfold Fnmatch.toPatternChars at ih ⊢
+    rw [toPatternChars, List.map_cons, List.filterMap_cons]
+    by_cases h1 : c.isQuoting = true
+    · simp [h1, projAttr, ih]
+    · by_cases h2 : c.isQuoted = true
+      · simp [h1, h2, projAttr, ih]
+      · simp [h1, h2, projAttr, ih]
+
+theorem patternChars_eq_fnmatch (cs : List AttrChar) :
+    toPatternChars (applyEscapes cs) =
+      Fnmatch.toPatternChars (Fnmatch.applyEscapes (cs.map fun c => ⟨c.value, c.isQuoted, c.isQuoting⟩)) := by
+  rw [toPatternChars_proj]
+  unfold applyEscapes Fnmatch.applyEscapes
+  rw [applyEscapesGo_proj]
+  rfl
+
+/-! ## A syntactic class inside the defined notation: patterns without an unquoted `[` -/
+
+/-- atoms that are not bracket expressions -/
+def noBracketAtom : Fnmatch.Atom → Bool
+  | .bracket _ => false
+  | _ => true
+
+theorem specParse_bracketFree : ∀ (n : Nat) (pcs : List PatChar), pcs.length ≤ n → bracketFree pcs = true →
+    (Fnmatch.specParse pcs).all noBracketAtom = true := by
   intro n
   induction n with
-  | zero => simp
+  | zero =>
+    intro pcs hl _
+    have : pcs = [] := List.eq_nil_of_length_eq_zero (by omega)
+    subst this
+    simp [Fnmatch.specParse]
   | succ n ih =>
-    rw [List.range_succ, List.find?_append]
-    cases h : (List.range n).find? p with
-    | some k =>
-      rw [h] at ih
-      simp only [Option.some_or]
-      exact ⟨ih.1, by omega, ih.2.2⟩
-    | none =>
-      rw [h] at ih
-      simp only [Option.none_or, List.find?_cons, List.find?_nil]
-      by_cases hn : p n = true
-      · simp only [hn]
-        exact ⟨trivial, by omega, fun j hj => ih j hj⟩
-      · have hn' : p n = false := by simpa using hn
-        simp only [hn']
-        intro j hj
-        rcases Nat.lt_or_ge j n with h' | h'
-        · exact ih j h'
-        · have : j = n := by omega
-          subst this; exact hn'
+    intro pcs hl hb
+    cases pcs with
+    | nil => simp [Fnmatch.specParse]
+    | cons pc t =>
+      have hb' : (pc != Fnmatch.PatternChar.normal '[') = true ∧ bracketFree t = true := by
+        simpa [bracketFree] using hb
+      have hne : pc ≠ .normal '[' := by simpa using hb'.1
+      have iht := ih t (by simp at hl; omega) hb'.2
+      rw [Fnmatch.specParse]
+      by_cases h1 : pc = .normal '?'
+      · simp [h1, noBracketAtom, iht]
+      · by_cases h2 : pc = .normal '*'
+        · simp [h2, noBracketAtom, iht]
+        · simp [h1, h2, hne, noBracketAtom, iht]
 
-theorem find_range_rev (p : Nat → Bool) : ∀ n,
-    match (List.range n).reverse.find? p with
-    | some k => p k = true ∧ k < n ∧ ∀ j, k < j → j < n → p j = false
-    | none => ∀ j, j < n → p j = false := by
-  intro n
-  induction n with
-  | zero => simp
-  | succ n ih =>
-    rw [List.range_succ, List.reverse_append]
-    simp only [List.reverse_cons, List.reverse_nil, List.nil_append, List.singleton_append,
-      List.find?_cons]
-    by_cases hn : p n = true
-    · simp only [hn]
-      exact ⟨trivial, by omega, fun j h1 h2 => by omega⟩
-    · have hn' : p n = false := by simpa using hn
-      simp only [hn']
-      cases h : (List.range n).reverse.find? p with
-      | some k =>
-        rw [h] at ih
-        refine ⟨ih.1, by omega, ?_⟩
-        intro j h1 h2
-        rcases Nat.lt_or_ge j n with h' | h'
-        · exact ih.2.2 j h1 h'
-        · have : j = n := by omega
-          subst this; exact hn'
-      | none =>
-        rw [h] at ih
-        intro j hj
-        rcases Nat.lt_or_ge j n with h' | h'
-        · exact ih j h'
-        · have : j = n := by omega
-          subst this; exact hn'
+theorem defined_of_noBracket : ∀ (ast : Fnmatch.Ast), ast.all noBracketAtom = true →
+    Fnmatch.astDefined ast = true ∧ Fnmatch.noMulti ast = true := by
+  intro ast
+  induction ast with
+  | nil => intro _; simp [Fnmatch.astDefined, Fnmatch.noMulti]
+  | cons a t ih =>
+    intro h
+    simp only [List.all_cons, Bool.and_eq_true] at h
+    obtain ⟨ha, ht⟩ := h
+    have := ih ht
+    cases a <;> simp_all [Fnmatch.astDefined, Fnmatch.noMulti, Fnmatch.atomOk, Fnmatch.noMultiAtom, noBracketAtom]
 
-/-- removing `k` characters matches the pattern (anchored at the side being trimmed) -/
-def trimMatches (pat : List PatChar) (side : TrimSide) (v : List Char) (k : Nat) : Bool :=
-  match side with
-  | .prefix => globMatch pat (v.take k)
-  | .suffix => globMatch pat (v.drop (v.length - k))
-
-def trimRemoved (side : TrimSide) (v : List Char) (k : Nat) : List Char :=
-  match side with
-  | .prefix => v.drop k
-  | .suffix => v.take (v.length - k)
-
-theorem trimValue_eq (pat : List PatChar) (side : TrimSide) (len : TrimLen) (v : List Char) :
-    trimValue pat side len v =
-      match (match len with
-             | .shortest => upTo v.length
-             | .longest => (upTo v.length).reverse).find? (trimMatches pat side v) with
-      | some k => trimRemoved side v k
-      | none => v := by
-  cases side <;> cases len <;> simp only [trimValue, trimRemoved] <;> rfl
+theorem bracketFree_inPosix (pcs : List PatChar) (h : bracketFree pcs = true) (side : TrimSide) :
+    patternInPosix side pcs = true := by
+  have := defined_of_noBracket _ (specParse_bracketFree pcs.length pcs (Nat.le_refl _) h)
+  simp [patternInPosix, this.1, this.2]
 
 end YashModel.Expansion
